@@ -386,6 +386,9 @@ def emit(e: E, o: Opts, scope, ascii_only, latin1, top=False):
     if o.ws and rng.random() < 0.2:
         head += rng.choice([" ", "\n"])
     inner = "".join(body)
+    if not inner and o.cdata and rng.random() < 0.25:
+        inner = "<![CDATA[]]>"  # an empty CDATA section is no character data: the same infoset as an empty element
+        o.applied.add("empty-cdata")
     if not inner and rng.random() < 0.5:
         return f"<{head}/>"
     return f"<{head}>{inner}</{name}{' ' if o.ws and rng.random() < 0.1 else ''}>"
